@@ -48,6 +48,7 @@ class Program:
         self.free = {}       # last segment -> [(segs, Fn)]
         self.impl_info = {}  # (file, line, col) -> (selfsegs, trait or None, traitargs)
         self._resolve_cache = {}
+        self._ev_cache = {}
         self._load_rustdoc(rustdoc_json)
         self._index()
 
@@ -144,6 +145,14 @@ class Program:
     # ------------------------------------------------------------ ADT helpers
     def enum_variant(self, path_text):
         """'types::Type::Raw' -> (enum path, 'Raw', idx) if the prefix names a known enum having that variant"""
+        try:
+            return self._ev_cache[path_text]
+        except KeyError:
+            r = self._enum_variant(path_text)
+            self._ev_cache[path_text] = r
+            return r
+
+    def _enum_variant(self, path_text):
         s = segs(path_text)
         if len(s) < 2: return None
         pre = tuple(s[:-1]); var = s[-1]
